@@ -251,6 +251,15 @@ def c03(trace):
             pid = p['id']
             if 'error' in p['api']:
                 continue
+            # the portfolio's aggregate P&L figures are the sums of its positions' figures
+            for agg, col in (('pnl', 'total_pnl'), ('realised', 'realised_pnl'), ('unrealised', 'unrealised_pnl')):
+                vals = [row[col] for row in p['api'].values()]
+                if isinstance(p.get(agg), dict) or any(math.isnan(v) for v in vals) or (isinstance(p.get(agg), float) and math.isnan(p[agg])):
+                    continue
+                want = sum((fx(v) for v in vals), F(0))
+                scale_ = sum((abs(fx(v)) for v in vals), F(0))
+                if abs(fx(p[agg]) - want) > scale_ / 10 ** 9 + F(1, 10 ** 6):
+                    out.add(i, 'portfolio %s %s = %r, the sum over its positions is %s' % (pid, col, p[agg], float(want)), 'aggregate-pnl')
             for a, row in p['api'].items():
                 key = (pid, a)
                 fl = openfills.get(key)
